@@ -61,6 +61,25 @@ pub fn chain(depth: usize, fanin: usize, form0: usize, void_every: usize) -> Cas
     Case { family: format!("chain(depth={depth},fanin={fanin},form={form0},void_every={void_every})"), items: depth + 1, depth, wgsl: s }
 }
 
+/// helpers without a return value only: v_i calls v_{i-1} `fanin` times as call statements
+pub fn void_chain(depth: usize, fanin: usize) -> Case {
+    let mut s = header();
+    s.push_str("fn v_0(x: f32) { data[0] = x; }\n");
+    for i in 1..=depth {
+        let mut body = String::new();
+        for k in 0..fanin {
+            match (i + k) % 3 {
+                0 => writeln!(body, "    v_{}(x);", i - 1).unwrap(),
+                1 => writeln!(body, "    if (x > 0.5) {{ v_{}(x); }}", i - 1).unwrap(),
+                _ => writeln!(body, "    for (var i = 0; i < 2; i++) {{ v_{}(x + 1.0); }}", i - 1).unwrap(),
+            }
+        }
+        writeln!(s, "fn v_{i}(x: f32) {{\n{body}}}").unwrap();
+    }
+    writeln!(s, "@compute @workgroup_size(1)\nfn main() {{\n    v_{depth}(1.0);\n}}").unwrap();
+    Case { family: format!("void_chain(depth={depth},fanin={fanin})"), items: depth + 1, depth, wgsl: s }
+}
+
 /// layers of `width` functions, every function of layer i calls every function of layer i-1.
 pub fn diamond(layers: usize, width: usize, form0: usize) -> Case {
     let mut s = header();
@@ -201,6 +220,11 @@ pub fn family_members(tier: Tier) -> Vec<Case> {
         v.push(chain(d, 2, 1, 0));
         v.push(chain(d, 2, 6, 4));
     }
+    for d in [8usize, 16, 24, 32, 48, 64] {
+        v.push(void_chain(d, 1));
+        v.push(void_chain(d, 2));
+        v.push(void_chain(d, 3));
+    }
     for l in [4usize, 8, 16, 24, 32, 40] {
         v.push(diamond(l, 2, 0));
         v.push(diamond(l, 3, 3));
@@ -304,7 +328,7 @@ pub fn eval_replay(_sut: &dyn Sut, v: &serde_json::Value) -> Result<(), String> 
 pub fn run(_sut: &dyn Sut, tier: Tier) -> ! {
     crate::preflight::quiet_panics();
     let mut run = Run::new("C20", tier);
-    run.rule = format!("deterministic family members (call chains with 1-3 call sites per level and mixed value/void calls up to depth 64, diamonds up to 40 layers, fan-out to a shared chain, nested struct types up to depth 26 directly and through arrays, wide flat shaders with hundreds of bindings/members/constants) plus random helper DAGs of 4..300 functions drawn by proptest; each is generated in a worker child whose own CPU time (getrusage) is compared with {CPU_THRESHOLD_S}s; children are killed at {CPU_KILL_S}s CPU by RLIMIT_CPU. Non-trivial = call/type depth >= 16 or >= 100 functions/bindings/members; distinct by source text.");
+    run.rule = format!("deterministic family members (call chains with 1-3 call sites per level and mixed value/void calls up to depth 64, chains of helpers without return value with 1-3 call statements per level up to depth 64, diamonds up to 40 layers, fan-out to a shared chain, nested struct types up to depth 26 directly and through arrays, wide flat shaders with hundreds of bindings/members/constants) plus random helper DAGs of 4..300 functions drawn by proptest; each is generated in a worker child whose own CPU time (getrusage) is compared with {CPU_THRESHOLD_S}s; children are killed at {CPU_KILL_S}s CPU by RLIMIT_CPU. Non-trivial = call/type depth >= 16 or >= 100 functions/bindings/members; distinct by source text.");
     run.assumptions = vec![
         "cost is CPU seconds of the child (user+sys), never wall clock; the harness build has debug assertions on, which costs < 2x".into(),
         "shallow shaders of this size cost 1-30 ms (measured, reported as max_cpu_s), so the threshold has > 50x slack".into(),
@@ -330,7 +354,7 @@ pub fn run(_sut: &dyn Sut, tier: Tier) -> ! {
         }
     }
     // random DAGs (parallel over 8 threads; each worker child is single-threaded)
-    let n = tier.pick(150, 3000);
+    let n = tier.pick(400, 4000);
     let (_r, mut sampled) = sample(run.seed_for(1), n, (64, 1400));
     let cases: Vec<Case> = sampled
         .trees
